@@ -95,13 +95,16 @@ fn replay_loop(
     let mut cache: Option<(Value, writers::Objects)> = None;
     for l in lines {
         let deco = l["opts"]["decorate"].as_str().unwrap_or("").to_owned();
-        let uni = json!({"u": l["universe"], "deco": deco});
+        let twin = l["opts"]["twin_features"] == true;
+        let uni = json!({"u": l["universe"], "deco": deco, "twin": twin});
         if cache.as_ref().is_none_or(|(u, _)| *u != uni) {
             let specs: Vec<universe::FeatureSpec> =
                 serde_json::from_value(l["universe"].clone()).unwrap();
             cache = Some((
                 uni.clone(),
-                if !deco.is_empty() {
+                if twin {
+                    writers::Objects::new_twin_features(&specs)
+                } else if !deco.is_empty() {
                     writers::Objects::new_decorated(&specs, deco == "cdata")
                 } else {
                     writers::Objects::new(&specs)
@@ -120,7 +123,16 @@ fn replay_loop(
 }
 
 fn main() {
-    let args: Vec<String> = env::args().skip(1).collect();
+    // The sub-command may also come in `VERIF_ARGS` (tab-separated), leaving the
+    // process arguments empty: code under test that wrongly falls back to
+    // parsing the process arguments then sees none (and runs with defaults)
+    // instead of aborting the harness.
+    let mut args: Vec<String> = env::args().skip(1).collect();
+    if args.is_empty() {
+        if let Ok(a) = env::var("VERIF_ARGS") {
+            args = a.split('\t').map(str::to_owned).collect();
+        }
+    }
     let Some(cmd) = args.first() else {
         eprintln!("usage: verif-harness <drive|replay-normalize|...> ...");
         std::process::exit(2);
@@ -163,6 +175,7 @@ fn main() {
                 let r = pure::filter_vector(&specs, &l);
                 rec["received"] = r["received"].clone();
                 rec["expr_text"] = r["expr_text"].clone();
+                rec["started"] = r["started"].clone();
                 writeln!(out, "{rec}").unwrap();
             }
         }
